@@ -25,7 +25,7 @@
   * **whole-run bound**: with a flag that is never lowered and visible from tick `t₀` on, the solve
     makes at most `max 8 (t₀ + 7)` events in all (`zerofpr_at_most_one_iteration_after_stop`) — "at
     most one further iteration's worth of evaluations", wherever the request lands;
-  * **final status**: if the request was visible early enough before the end (`t₀ + 2 ≤ ticks`) the
+  * **final status**: if the request was visible early enough before the end (`t₀ + 1 ≤ ticks`) the
     status is `Interrupted`, or the natural status whose condition held at the last head
     (`zerofpr_interrupted_or_natural`).
   Not modelled: data-race freedom of the flag (C++ memory model).
@@ -298,9 +298,10 @@ theorem chain_with_stop (tol : α) (maxIter maxNP k : Nat) (ε : α) (np : Nat) 
   split_ifs <;> simp_all
 
 /-- **Final status is `Interrupted` unless a higher-priority chain condition holds at that head**:
-    if the flag (never lowered) was visible from tick `t₀` and the solve made at least `t₀ + 2` events
-    in all — i.e. it did not finish before the request could be seen (the last head polls at tick
-    `ticks − 1`) — the returned status is `Interrupted`, or it is the natural status whose condition
+    if the flag (never lowered) was visible from tick `t₀` and the solve made more than `t₀` events in
+    all (`t₀ + 1 ≤ ticks`; in particular whenever `t₀ + 2 ≤ ticks`) — i.e. it did not finish before
+    the request could be seen (the last head polls at tick `ticks − 1`, the exit block adds the final
+    callback) — the returned status is `Interrupted`, or it is the natural status whose condition
     held at the last head: `Converged ∧ ε ≤ tol'`, `MaxTime`, `MaxIter ∧ iterations = max_iter`,
     `NotFinite ∧ ε not finite`, `NoProgress ∧ counter > max_no_progress` with the counter of the
     reported iterates (`Props/C06_Zerofpr.cbFlags`). -/
@@ -309,7 +310,7 @@ theorem zerofpr_interrupted_or_natural_fuel (P : Problem α) (dir : Direction D 
     (oot : Bool) (x0 y Sig errz0 gV : Vec α) (gS iS : α) (s0 : St α D)
     (hinit : initState P d0 pr stop x0 gV gS = .inr s0)
     (hfuel : (run P dir d0 pr stop oot x0 y Sig errz0 gV gS iS).fuelOut = false)
-    (hlate : t0 + 2 ≤ (run P dir d0 pr stop oot x0 y Sig errz0 gV gS iS).ticks) :
+    (hlate : t0 + 1 ≤ (run P dir d0 pr stop oot x0 y Sig errz0 gV gS iS).ticks) :
     (run P dir d0 pr stop oot x0 y Sig errz0 gV gS iS).stats.status = .Interrupted ∨
     ((run P dir d0 pr stop oot x0 y Sig errz0 gV gS iS).stats.status = .Converged ∧
       (run P dir d0 pr stop oot x0 y Sig errz0 gV gS iS).stats.eps ≤ C06.effTol pr.tolerance) ∨
@@ -374,7 +375,7 @@ theorem zerofpr_interrupted_or_natural (P : Problem α) (dir : Direction D α) (
     (t0 : Nat) (h0 : stop t0 = true)
     (oot : Bool) (x0 y Sig errz0 gV : Vec α) (gS iS : α) (s0 : St α D)
     (hinit : initState P d0 pr stop x0 gV gS = .inr s0)
-    (hlate : t0 + 2 ≤ (run P dir d0 pr stop oot x0 y Sig errz0 gV gS iS).ticks) :
+    (hlate : t0 + 1 ≤ (run P dir d0 pr stop oot x0 y Sig errz0 gV gS iS).ticks) :
     (run P dir d0 pr stop oot x0 y Sig errz0 gV gS iS).stats.status = .Interrupted ∨
     ((run P dir d0 pr stop oot x0 y Sig errz0 gV gS iS).stats.status = .Converged ∧
       (run P dir d0 pr stop oot x0 y Sig errz0 gV gS iS).stats.eps ≤ C06.effTol pr.tolerance) ∨
@@ -402,7 +403,7 @@ section examples
 open Alpaqa.Zerofpr.Example
 
 /-- the concrete solve with the flag visible from tick 9: all hypotheses hold (`FuelOK`, `Mono`, the
-    solve reached the main loop, `9 + 2 ≤ 12 = ticks`), the status is `Interrupted`, and the whole-run
+    solve reached the main loop, `9 + 1 ≤ 12 = ticks`), the status is `Interrupted`, and the whole-run
     bound `12 ≤ max 8 (9 + 7)` is met. -/
 example : (∃ s0, initState exP () { exPr with lsFuel := 4096 } stopAt9 [3] [] 0 = .inr s0) ∧
     (run exP exDir () { exPr with lsFuel := 4096 } stopAt9 false [3] [5] [2] [7] [] 0 1000000).ticks = 12 ∧
